@@ -154,8 +154,8 @@ func predeclareShape(f *ast.File) bool {
 	}
 	body := squash(src(df.Body))
 	for _, want := range []string{
-		`iftok.Symbol=="package"&&len(tok.Tokens)>0&&tok.Tokens[len(tok.Tokens)-1].Text!=""{export=tok.Tokens[len(tok.Tokens)-1].Text+"."`,
-		`declare=func(toks[]*token){for_,tok:=rangetoks{switch{casetok.Symbol=="function"&&len(tok.Tokens)>0:g.Index(export+tok.Tokens[0].Text)case(tok.Symbol=="var"||tok.Symbol==":="||tok.Symbol=="const")&&len(tok.Tokens)>0:for_,name:=rangetok.Tokens[0].Tokens{ifname.Text!="_"{g.Index(export+name.Text)}}casetok.Symbol=="block":declare(tok.Tokens)}}}`,
+		`iftok!=nil&&tok.Symbol=="package"&&len(tok.Tokens)>0&&tok.Tokens[len(tok.Tokens)-1]!=nil&&tok.Tokens[len(tok.Tokens)-1].Text!=""{export=tok.Tokens[len(tok.Tokens)-1].Text+"."`,
+		`declare=func(toks[]*token){for_,tok:=rangetoks{switch{casetok==nil||len(tok.Tokens)==0||tok.Tokens[0]==nil:casetok.Symbol=="function":g.Index(export+tok.Tokens[0].Text)casetok.Symbol=="var"||tok.Symbol==":="||tok.Symbol=="const":for_,name:=rangetok.Tokens[0].Tokens{ifname!=nil&&name.Symbol=="(name)"&&name.Text!="_"{g.Index(export+name.Text)}}casetok.Symbol=="block":declare(tok.Tokens)}}}`,
 		`declare(pkg.Tokens)`,
 	} {
 		if !strings.Contains(body, want) {
